@@ -58,25 +58,40 @@ def tryPresolver (b : Array α) (cones : List (ConeT α)) (presolveEnable : Bool
 /-- the cap `b_new.scalarop(|x| T::min(x, infbound))` -/
 def capB (b : Array α) (infbound : α) : Array α := b.map (fun x => fmin x infbound)
 
+/-- `if !P.is_triu() { P_new = Some(P.to_triu()) }` -/
+def triuStep (P : Csc α) : MErr (Csc α) := if !P.isTriu then P.toTriu else pure P
+
+/-- `presolver.presolve(A, b, &cones)` when a presolver exists, the untouched data otherwise -/
+def reduceStep (presolver : Option (Presolve.Presolver α)) (A : Csc α) (b : Array α)
+    (cones : List (ConeT α)) : MErr (Csc α × Array α × List (ConeT α)) :=
+  match presolver with
+  | some p => p.presolve A b cones
+  | none => pure (A, b, cones)
+
+/-- a PSD cone that chordal decomposition would look at (`dim > 3`) -/
+def hasLargePsd (cones : List (ConeT α)) : Bool :=
+  cones.any (fun c => match c with | .psd d => decide (d > 3) | _ => false)
+
+/-- the final record: cap of `b`, sizes from the (reduced) `A`, identity equilibration -/
+def assemble (Pnew : Csc α) (q : Array α) (Anew : Csc α) (bnew : Array α) (conesNew : List (ConeT α))
+    (presolver : Option (Presolve.Presolver α)) (infbound : α) : ProblemData α :=
+  let bcap := capB bnew infbound
+  { P := Pnew, q := q, A := Anew, b := bcap, cones := conesNew, n := Anew.n, m := Anew.m,
+    equilibration := EquilData.new Anew.n Anew.m,
+    normq := some (Vec.normInf q), normb := some (Vec.normInf bcap),
+    presolver := presolver }
+
 /-- `DefaultProblemData::new`.  `infbound` is `get_infinity()` at the time of the call
 (read by `Presolver::new` and again for the cap). -/
 def new (P : Csc α) (q : Array α) (A : Csc α) (b : Array α) (cones : List (ConeT α))
     (presolveEnable chordalEnable : Bool) (infbound : α) : MErr (ProblemData α) := do
   let cones := Cones.newCollapsed cones
-  let Pnew ← if !P.isTriu then P.toTriu else pure P
+  let Pnew ← triuStep P
   let presolver ← tryPresolver b cones presolveEnable infbound
-  let (Anew, bnew, conesNew) ← match presolver with
-    | some p => p.presolve A b cones
-    | none => pure (A, b, cones)
-  if chordalEnable && conesNew.any (fun c => match c with | .psd d => decide (d > 3) | _ => false) then
+  let r ← reduceStep presolver A b cones
+  if chordalEnable && hasLargePsd r.2.2 then
     throw (.err "chordal-not-modelled")
-  let bnew := capB bnew infbound
-  let m := Anew.m
-  let n := Anew.n
-  pure { P := Pnew, q := q, A := Anew, b := bnew, cones := conesNew, n := n, m := m,
-         equilibration := EquilData.new n m,
-         normq := some (Vec.normInf q), normb := some (Vec.normInf bnew),
-         presolver := presolver }
+  pure (assemble Pnew q r.1 r.2.1 r.2.2 presolver infbound)
 
 end ProblemData
 end Clarabel
